@@ -38,7 +38,7 @@ def make_job(variant):
     from experimaestro.scheduler.workspace import RunMode
     from universe.crashtask import CrashTask
     import io
-    d = Path(tempfile.mkdtemp(prefix="vk", dir="/dev/shm"))
+    d = Path(tempfile.mkdtemp(prefix="vk", dir=os.environ.get("VERIF_SCRATCH", "/dev/shm")))
     import atexit
     atexit.register(lambda: shutil.rmtree(d, ignore_errors=True))
     old = sys.stderr
